@@ -69,6 +69,14 @@ theorem C10_bytes_roundtrip (f : Bytes) (h : S.canonicalDistinfo f = true) :
     have hok := fileOk_of_wf cf h.1
     rw [← h.2, fromBytes_render cf hok, asBytes_distinfo cf hok]
 
+/-- the same, quantified directly over ALL well-formed block data instead of going through the
+    executable recogniser `S.canonicalDistinfo` (whose completeness is therefore not needed): the
+    rendering of ANY well-formed data is reproduced byte for byte -/
+theorem C10_bytes_roundtrip_data (cf : S.CFile) (h : cf.wf = true) :
+    (distinfoFromBytes cf.render).asBytes = cf.render := by
+  have hok := fileOk_of_wf cf h
+  rw [fromBytes_render cf hok, asBytes_distinfo cf hok]
+
 /-- **Write → parse.**  Conversely, for the Distinfo a well-formed block list denotes (RCS Id,
     files in order, each with its checksums in order and its size), writing it and parsing the
     result yields the same Distinfo — same Id, same files in the same order, same checksums in
